@@ -25,7 +25,7 @@ from vlib.runner import Sub, Violation, require
 PROPERTY = "C17"
 RULE = ("ancestral: chains of 2-4 normal variables (wide root, children with scale 1e-3 around g(parent)), link kinds direct / cached calc / "
         "transient calc / weak variable / bare calc, value shapes (), (5,), (3,4) with scalar or batch-shaped parents, skip sets, both "
-        "auto_update settings, seeds; pit: modelgen specs with continuous families. Non-trivial = depth >= 2 through a cached intermediate "
+        "auto_update settings, seeds; children optionally transformed through the bijector-class path, integer-typed placeholder on the leaf, model out of date on entry; cross_process: the same case in child interpreters with other hash seeds; pit: modelgen specs with continuous families. Non-trivial = depth >= 2 through a cached intermediate "
         "with auto-update off, or a non-empty skip set; distinct = SHA-1 of the case")
 ASSUMPTIONS = [
     "tight children: |child - g(new parent)| < 8 sd = 8e-3 (scaled by the value magnitude for float32 rounding) must hold; a stale read misses by O(parent sd = 50)",
